@@ -18,7 +18,13 @@ Modes == {"file", "directory"}
 \* --output-file: not given / names something new / names an existing file / names an existing directory
 OutOpts == {"unset", "new", "file", "dir"}
 \* what already exists at the place the transfer would go (when that place is not decided by OutOpts alone)
-PreOpts == {"none", "file", "dir"}
+\* "linkfile" / "linkdir": a symbolic link to an existing file / directory *outside* the working directory; "dangling": a
+\* symbolic link whose target does not exist (its parent directory, outside the working directory, does)
+PreOpts == {"none", "file", "dir", "linkfile", "linkdir", "dangling"}
+\* what the entry counts as: a link to something that exists is that something (an existing destination); a dangling link is
+\* no existing destination - nothing is there to lose - so the receiver may replace the link itself or fail, but the place
+\* the link points at is outside the destination like any other place
+PreAs(p) == CASE p = "linkfile" -> "file" [] p = "linkdir" -> "dir" [] p = "dangling" -> "none" [] OTHER -> p
 
 Case(m, b, d, o, a, p, t) == [mode |-> m, base |-> b, decor |-> d, out |-> o, accept |-> a, pre |-> p, pretmp |-> t]
 Cases == {Case(m, b, d, o, a, p, t) : m \in Modes, b \in BaseClasses, d \in Decor, o \in OutOpts, a \in BOOLEAN,
@@ -33,29 +39,33 @@ Written(d, r) == [result |-> "written", dest |-> d, replaces |-> r]
 \* a degenerate basename makes the candidate path an existing directory (cwd, its parent, the output dir)
 Degenerate(c) == c.base # "plain"
 
-Decide(c) ==
+Decide0(c) ==
   CASE c.out = "unset" ->
-         IF Degenerate(c) \/ c.pre # "none" THEN Rejected ELSE Written("cwd/base", FALSE)
+         IF Degenerate(c) \/ PreAs(c.pre) # "none" THEN Rejected ELSE Written("cwd/base", FALSE)
     [] c.out = "new"  -> Written("out", FALSE)                    \* the offered name is not used at all
     [] c.out = "file" -> Written("out", TRUE)                     \* replacing it is what the user asked for
     [] c.out = "dir"  ->
          IF Degenerate(c) THEN Rejected
-         ELSE IF c.pre = "dir" THEN Rejected                      \* an existing directory is never deleted
-         ELSE Written("out/base", c.pre = "file")
+         ELSE IF PreAs(c.pre) = "dir" THEN Rejected               \* an existing directory is never deleted
+         ELSE Written("out/base", PreAs(c.pre) = "file")
+\* where the dangling link sits (the candidate destination the basename names) the transfer may go ahead - replacing the link -
+\* or fail: result "any"; the announced destination is the same either way
+Decide(c) == LET d == Decide0(c) IN
+  IF c.pre = "dangling" /\ d.result = "written" /\ d.dest \in {"cwd/base", "out/base"} THEN [d EXCEPT !.result = "any"] ELSE d
 
 \* ---- what the statement allows ---------------------------------------------------------------------------------
 \* the single announced destination: a child of cwd (or the --output-file target) named by the offer's basename
 AnnouncedOK(c) == LET r == Decide(c) IN
-    r.result = "written" =>
+    r.result \in {"written", "any"} =>
        /\ r.dest \in {"cwd/base", "out", "out/base"}
        /\ (r.dest = "cwd/base" => c.out = "unset" /\ ~Degenerate(c))
        /\ (r.dest = "out/base" => c.out = "dir" /\ ~Degenerate(c))
 \* without --output-file an existing destination makes the transfer fail
-ExistingFails(c) == (c.out = "unset" /\ c.pre # "none") => Decide(c).result = "rejected"
+ExistingFails(c) == (c.out = "unset" /\ PreAs(c.pre) # "none") => Decide(c).result = "rejected"
 \* an existing file is replaced only when --output-file names it or the existing directory containing it
 ReplaceOnlyIfNamed(c) == Decide(c).replaces => c.out \in {"file", "dir"}
 \* an existing directory is never deleted (replaced)
-DirNeverDeleted(c) == (Decide(c).replaces /\ c.out = "dir") => c.pre = "file"
+DirNeverDeleted(c) == (Decide(c).replaces /\ c.out = "dir") => PreAs(c.pre) = "file"
 \* the decoration of the offered name never matters
 DecorIrrelevant == \A c \in Cases : \A d \in Decor : Decide(c) = Decide([c EXCEPT !.decor = d])
 StatementHolds == \A c \in Cases : AnnouncedOK(c) /\ ExistingFails(c) /\ ReplaceOnlyIfNamed(c) /\ DirNeverDeleted(c)
